@@ -2,6 +2,7 @@
    FALSE on the current design (defect D7, known finding): a data chunk may
    contain a block with the final bit whose stored length swallows the end
    block the Reader appends. *)
+From V Require Import Meta.Accept XFlate.AcceptDeflate.
 From V Require Import Base.Prelude Base.Prog Meta.Model Flate.Spec XFlate.Index XFlate.Reader XFlate.C15.
 
 (* stream built by the harness (real meta.Writer for index and footer):
@@ -33,3 +34,22 @@ Proof.
   revert Hu. vm_compute. discriminate.
 Qed.
 Print Assumptions C15_statement_is_false.
+
+(* THE PART OF THE PROPERTY THAT HOLDS, for EVERY byte string: if the Reader model accepts a
+   stream (open + sequential read to io.EOF) and NO data chunk, as delimited by the accepted
+   index, contains a DEFLATE block with the final bit ([c15_class s = 1]: the classification
+   the check applies to every accepted stream; class 2 is the known finding D7), then the plain
+   DEFLATE decoder model reads exactly the same content and consumes the stream to its last
+   byte. So the known finding is the ONLY way the property fails. (Premise: the stream is
+   shorter than 2^63 bytes - the int64 offsets of the index walk.) Ingredients: the CONVERSE
+   for meta blocks (whatever the meta decoder accepts is an empty DEFLATE block, Meta/Accept.v),
+   the layout an accepted footer/index chain forces (records tile the stream from 0 to its end),
+   a block can never end inside the appended end block and be followed by a clean end
+   (endblock_tail), and DEFLATE composition. *)
+Theorem xflate_accept_implies_deflate_unless_final_bit_in_chunk : forall s d,
+  (forall b, In b s -> b < 256) ->
+  (Z.of_nat (length s) < 2 ^ 63)%Z ->
+  c15_class s = 1 -> accepted_content s = Some d ->
+  inflate s = mkIR None d (N.of_nat (length s)).
+Proof. exact xflate_accept_implies_deflate_partial. Qed.
+Print Assumptions xflate_accept_implies_deflate_unless_final_bit_in_chunk.
